@@ -1,5 +1,5 @@
 #!/bin/bash
-# usage: collect.sh bn|b2|r2|r3|r4 Cxx
+# usage: collect.sh bn|b2|r2|r3|r4|r5 Cxx
 kind=$1; pid=$2
 src=/tmp/${kind}_$pid/SEED
 if [ "$kind" = bn ] || [ "$kind" = b2 ]; then dst=/verif/benign/$pid; else dst=/verif/seeded/$pid; fi
